@@ -682,6 +682,9 @@ def gen_history(rng, lo, hi):
 
 def generate(rng, tier):
     cases = list(generate_cases(rng, tier))
+    for k, c in enumerate(cases):
+        if c['op'] == 'hist':
+            c['errstate'] = k % 4       # the caller's numpy error policy / warnings filters this history runs under
     start_prefetch(cases, max(2, min(6, C.NCPU // 2)))
     return cases
 
@@ -1890,6 +1893,34 @@ def rng_state():
     return (st[0], st[1].tobytes(), st[2], st[3], st[4])
 
 
+def _errcall(kind, flag):       # a harmless floating-point error callback installed by the "caller"
+    return None
+
+
+ERRSTATES = [None,                                                                   # numpy defaults
+             dict(divide='ignore', invalid='ignore', over='ignore', under='ignore'),
+             dict(divide='call', invalid='call', over='ignore', under='ignore'),
+             dict(divide='ignore', invalid='warn', over='warn', under='ignore')]
+
+
+def set_caller_process_state(k):
+    """the caller's own numpy floating-point error policy and warnings filters (process state, like the generator)"""
+    import warnings
+    cfg = ERRSTATES[k % len(ERRSTATES)]
+    if cfg is not None:
+        np.seterr(**cfg)
+        if 'call' in cfg.values():
+            np.seterrcall(_errcall)
+    warnings.filterwarnings('ignore', message='lv-c10 caller filter %d' % k)
+
+
+def process_state():
+    import warnings
+    return (tuple(sorted(np.geterr().items())), repr(np.geterrcall()),
+            tuple((f[0], getattr(f[1], 'pattern', f[1]), f[2].__name__, getattr(f[3], 'pattern', f[3]), f[4]) for f in warnings.filters),
+            repr(np.get_printoptions()))
+
+
 STATS = {}
 
 
@@ -1928,6 +1959,7 @@ def run_hist(c):
     regs = []
     out_steps = []
     np.random.seed(12345)
+    set_caller_process_state(c.get('errstate', 0))
     fresh_mode = c.get('fresh', 'all')
     for t, s in enumerate(c['steps']):
         rec = {'f': s['f'] if s['f'] not in ('fn', 'randfn') else s['name']}
@@ -1971,6 +2003,7 @@ def run_hist(c):
         seeded = f == 'fn' and s['name'] in SEEDED
         rand = f == 'randfn'
         r0 = rng_state()
+        p0 = process_state()
         try:
             res, targets = call_step(s, args, n)
             st = 'ok'
@@ -1981,6 +2014,9 @@ def run_hist(c):
                                            and not args['out'].flags.writeable)   # np.dot refuses a read-only out=
             st = 'ro' if ro else 'err:' + type(e).__name__
         r1 = rng_state()
+        p1 = process_state()
+        rec['pstate'] = [nm for nm, a, b in zip(('numpy error state (np.geterr)', 'numpy error callback', 'warnings filters',
+                                                 'numpy print options'), p0, p1) if a != b]
         rec['st'] = st
         rec['rng'] = r0 != r1
         # result identity and aliasing
@@ -2205,6 +2241,9 @@ def oracle(c, impl):
             return what + 'the call tried to write a read-only caller array that is not documented as in-place'
         if r['oundoc']:
             return what + f'the call changed the attributes of caller object(s) {r["oundoc"]} that are not documented as in-place'
+        if r.get('pstate'):
+            return what + ('the call changed process-wide state of the caller: ' + ', '.join(r['pstate'])
+                           + ' differ(s) before and after the call')
         if r['seeded'] and r['rng']:
             return what + 'a function given a seed advanced the global numpy generator'
         if r['hist']:
